@@ -227,7 +227,9 @@ class ExprMixin:
                             note=f"{h.cls} object has no attribute '{attr}' on this path")
                 raise PathEnd("attr")
             if isinstance(h, VSeq):
-                return [(st, VFunc(f"list.{attr}", self.list_method(base, attr)))]
+                f_ = VFunc(f"list.{attr}", self.list_method(base, attr))
+                f_.any_args = attr in ("view", "reshape")
+                return [(st, f_)]
         if isinstance(base, VRec):
             if attr in base.fields:
                 return [(st, base.fields[attr])]
@@ -244,7 +246,13 @@ class ExprMixin:
         if isinstance(base, VModule):
             return [(st, self.module_attr(base, attr, node))]
         if isinstance(base, VSeq):
-            return [(st, VFunc(f"seq.{attr}", self.seq_method(base, attr)))]
+            f_ = VFunc(f"seq.{attr}", self.seq_method(base, attr))
+            f_.any_args = attr in ("view", "reshape")
+            return [(st, f_)]
+        if isinstance(base, (VReal, VInt)) and attr in ("view", "float", "long", "item", "type", "double"):
+            f_ = VFunc(f"scalar.{attr}", lambda a, k, s, e, base=base: base)      # 0-d tensors / numpy scalars
+            f_.any_args = True
+            return [(st, f_)]
         if isinstance(base, VStr) and base.s is not None and attr in ("startswith", "endswith"):
             def strfn(args, kwargs, s_, eng, base=base, attr=attr):
                 a = args[0]
@@ -298,9 +306,56 @@ class ExprMixin:
             out.extend(self.binop(node.op, a, b, s, node))
         return out
 
+    def is_numeric_tensor(self, v, st):
+        return isinstance(v, VSeq) and isinstance(v.etype, (TInt, TReal)) and v.kind is not None and \
+            self.decide(st, z3.Or(v.kind == 1, v.kind == 2)) is True
+
+    def elementwise(self, op, a, b, st, node):
+        """a (op) b for numeric tensors; None when neither operand is one (python list semantics apply)"""
+        ta, tb = self.is_numeric_tensor(a, st), self.is_numeric_tensor(b, st)
+        if not (ta or tb):
+            return None
+        if (isinstance(a, VSeq) and not ta) or (isinstance(b, VSeq) and not tb):
+            return None
+        if not all(isinstance(x, (VSeq, VInt, VReal, VBool)) for x in (a, b)):
+            return None
+        if ta and tb:
+            same = z3.Or(a.len == b.len, a.len == 1, b.len == 1)
+            self.safety(st, "tensor:broadcastable", same, node, "elementwise operands have equal lengths or one of them has length one")
+            n = z3.If(a.len == 1, b.len, a.len)
+        else:
+            n = a.len if ta else b.len
+        real = isinstance(op, ast.Div) or any(isinstance(x, VReal) or (isinstance(x, VSeq) and isinstance(x.etype, TReal)) for x in (a, b))
+
+        def at(x, k):
+            if isinstance(x, VSeq):
+                return x.elem(z3.If(x.len == 1, 0, k) if (ta and tb) else k)
+            return x
+
+        def el(k):
+            x, y = at(a, k), at(b, k)
+            if real:
+                x, y = to_real(x), to_real(y)
+                if isinstance(op, ast.Div):
+                    return VReal(x / y)
+                return VReal({ast.Add: x + y, ast.Sub: x - y, ast.Mult: x * y}[type(op)])
+            x, y = to_int(x), to_int(y)
+            return VInt({ast.Add: x + y, ast.Sub: x - y, ast.Mult: x * y}[type(op)])
+        if isinstance(op, ast.Div):
+            k = z3.Int(uid("k"))
+            self.safety(st, "div:nonzero", z3.ForAll([k], z3.Implies(z3.And(0 <= k, k < n), to_real(at(b, k)) != 0)), node, "division by zero")
+        r = VSeq(n, el, REAL if real else INT)
+        r.kind = (a if ta else b).kind
+        return r
+
     def binop(self, op, a, b, st, node):
         a = self.unopt(self.deref(a, st), st, node, "left operand")
         b = self.unopt(self.deref(b, st), st, node, "right operand")
+        # numeric tensors / arrays: elementwise arithmetic with broadcasting of scalars and one-element operands
+        if (isinstance(a, VSeq) or isinstance(b, VSeq)) and isinstance(op, (ast.Add, ast.Sub, ast.Mult, ast.Div)):
+            r = self.elementwise(op, a, b, st, node)
+            if r is not None:
+                return [(st, r)]
         # sequences
         if isinstance(a, VSeq) or isinstance(b, VSeq):
             if isinstance(op, ast.Add) and isinstance(a, VSeq) and isinstance(b, VSeq):
@@ -317,6 +372,9 @@ class ExprMixin:
             r = a.call_method({ast.Add: "__add__", ast.Sub: "__sub__", ast.Mult: "__mul__", ast.Div: "__truediv__"}.get(type(op), "?"),
                               [b], {}, st, self)
             return r
+        if isinstance(b, VAbs):
+            return b.call_method({ast.Add: "__radd__", ast.Sub: "__rsub__", ast.Mult: "__rmul__", ast.Div: "__rtruediv__"}.get(type(op), "?"),
+                                 [a], {}, st, self)
         if isinstance(a, VStr) or isinstance(b, VStr):
             return [(st, VStr(t=fresh(STR, "strop").t))]
         if isinstance(op, (ast.BitXor, ast.BitAnd, ast.BitOr)) and isinstance(a, VBool) and isinstance(b, VBool):
@@ -582,6 +640,8 @@ class ExprMixin:
                         lo = self.ev1_code(p_.lower, s) if p_.lower is not None else NONEV
                         hi = self.ev1_code(p_.upper, s) if p_.upper is not None else NONEV
                         vals.append(VTuple([VStr("slice"), lo, hi]))
+                    elif isinstance(p_, ast.Constant) and p_.value is Ellipsis:
+                        vals.append(VStr("..."))
                     else:
                         vals.append(self.ev1_code(p_, s))
                 self.cur_call_node = node
@@ -597,6 +657,9 @@ class ExprMixin:
         j = z3.If(i < 0, i + seq.len, i)
         if z3.is_int_value(i):
             j = i if i.as_long() >= 0 else i + seq.len
+        elif self.spec_depth and getattr(self, "spec_nowrap", False):
+            j = i          # (contracts with spec_nowrap=True) specification subscripts with a symbolic index do not wrap around (they are written with 0 <= k guards);
+            #                keeps quantified spec formulas free of if-then-else index terms, which defeat pattern inference
         self.safety(st, f"{what}:inbounds", z3.And(0 <= j, j < seq.len), node, "sequence index out of range")
         return j
 
@@ -615,7 +678,13 @@ class ExprMixin:
             if self.is_dict(b, st):
                 return self.getitem(b, idx, st, node)
         if isinstance(b, VNone) and self.spec_depth:
-            return [(st, fresh(INT, "subscript_of_none"))]      # only meaningful under a guard that excludes None
+            r = fresh(INT, "subscript_of_none")      # only meaningful under a guard that excludes None
+            r.placeholder = True
+            return [(st, r)]
+        if getattr(b, "placeholder", False) and self.spec_depth:
+            r = fresh(INT, "subscript_of_none")
+            r.placeholder = True
+            return [(st, r)]
         if isinstance(b, VVal) and isinstance(self.deref(idx, st), VStr) and self.spec_depth:
             return [(st, fresh(VAL, "absent_key"))]
         if isinstance(b, VVal):
@@ -911,6 +980,8 @@ class ExprMixin:
                             args.extend(vv.elems)
                         elif isinstance(vv, VSeq) and vv.concrete is not None:
                             args.extend(vv.concrete)
+                        elif getattr(fv, "any_args", False):
+                            args.append(v)          # the callee ignores its positional arguments
                         else:
                             raise Unsupported("*args of symbolic length", node)
                     else:
